@@ -164,13 +164,14 @@ impl AsmParser {
         })
     }
 
-    pub fn new_simple(src: &'static str) -> Result<Self> {
+    /// Parser for a single instruction, which is given the statement number `line`.
+    pub fn new_simple(src: &'static str, line: u16) -> Result<Self> {
         let toks = preprocess_simple(src)?;
         Ok(AsmParser {
             src,
             toks: toks.into_iter().peekable(),
             air: Air::new(src),
-            line: 1,
+            line,
             tok_end: 0,
         })
     }
